@@ -6,6 +6,7 @@ import (
 	"flag"
 	"fmt"
 	"os"
+	"runtime"
 	"time"
 
 	proto "github.com/kubewharf/kubebrain-client/api/v2rpc"
@@ -28,6 +29,7 @@ func cmdLeadRun(args []string) int {
 	fails := fs.Int("fails", 50, "failed writes of the old leader (each consumes a revision)")
 	succ := fs.Int("succ", 3, "successful writes of the old leader")
 	stopAfter := fs.Int("stopafter", -1, "the old leader stops after this many requests (-1: after all)")
+	future := fs.Bool("future", false, "the old leader also serves a guarded update that names a revision far in the future, then more writes")
 	follower := fs.Bool("follower", false, "the new leader is a node that was a follower and served a read (it adopted the old leader's revision at that time) before the old leader's last writes")
 	fs.Parse(args)
 	kb.QuietLogs()
@@ -38,7 +40,7 @@ func cmdLeadRun(args []string) int {
 		return 2
 	}
 	defer eng.Close()
-	nkeys := *succ + 2
+	nkeys := *succ + 4
 	names := make([]string, nkeys)
 	for i := range names {
 		names[i] = fmt.Sprintf("/k%02d", i)
@@ -48,6 +50,11 @@ func cmdLeadRun(args []string) int {
 		return kb.NewEnv(kb.Options{Engine: eng, KeyNames: names, Gated: false, Record: true, Prefix: "/lead", Identity: id})
 	}
 	var standby *kb.Env
+	probeEarly := false
+	var earlyDone chan struct{}
+	var earlyRev uint64
+	earlyOk := false
+	earlyPanic := ""
 	startNode := func(id string) (*kb.Env, uint64, bool) {
 		env := standby
 		standby = nil
@@ -56,6 +63,31 @@ func cmdLeadRun(args []string) int {
 		}
 		started := make(chan struct{})
 		le := leader.NewLeaderElection(env.B, kb.Metrics(), func(context.Context) { close(started) }, func() {})
+		if probeEarly {
+			// a client that writes as soon as the node says it leads (the servers gate writes on IsLeader())
+			earlyDone = make(chan struct{})
+			go func() {
+				defer close(earlyDone)
+				for t0 := time.Now(); !le.IsLeader(); {
+					if time.Since(t0) > 6*time.Second {
+						return
+					}
+					runtime.Gosched()
+				}
+				func() {
+					// a panic of the code under test is an observation: the write got no usable revision
+					defer func() {
+						if x := recover(); x != nil {
+							earlyRev, earlyOk, earlyPanic = 1, false, fmt.Sprint(x)
+						}
+					}()
+					r, err := env.B.Create(context.Background(), &proto.CreateRequest{Key: env.Keys.Raw(len(names) - 1), Value: []byte("early")})
+					if err == nil {
+						earlyRev, earlyOk = r.Header.Revision, r.Succeeded
+					}
+				}()
+			}()
+		}
 		go le.Campaign()
 		select {
 		case <-started:
@@ -88,32 +120,52 @@ func cmdLeadRun(args []string) int {
 	oldRev := map[int]uint64{}
 	reqs := 0
 	stop := func() bool { return *stopAfter >= 0 && reqs >= *stopAfter }
-	for i := 0; i < *succ && !stop(); i++ {
-		r, err := a.B.Create(ctx, &proto.CreateRequest{Key: a.Keys.Raw(i + 1), Value: []byte("old")})
-		reqs++
-		if err == nil && r.Succeeded {
-			oldRev[i+1] = r.Header.Revision
+	func() {
+		// a panic of the code under test while the old leader serves its requests is an observation
+		defer func() {
+			if x := recover(); x != nil {
+				log(gate.Event{"e": "Panic", "who": "old leader", "msg": fmt.Sprint(x)})
+			}
+		}()
+		for i := 0; i < *succ && !stop(); i++ {
+			r, err := a.B.Create(ctx, &proto.CreateRequest{Key: a.Keys.Raw(i + 1), Value: []byte("old")})
+			reqs++
+			if err == nil && r.Succeeded {
+				oldRev[i+1] = r.Header.Revision
+			}
 		}
-	}
-	if *follower {
-		// a second node of the cluster serves a read as follower: the revision syncer stores the leader's
-		// committed revision in its backend (revision.go: SetCurrentRevision)
-		standby = newNode("node-1")
-		standby.B.SetCurrentRevision(a.B.GetCurrentRevision())
-	}
-	for i := 0; i < *fails && !stop(); i++ {
-		// creating an existing key fails and consumes a revision without touching the engine
-		a.B.Create(ctx, &proto.CreateRequest{Key: a.Keys.Raw(1), Value: []byte("again")})
-		reqs++
-	}
-	if !stop() {
-		// one more success so that a high revision is actually stored
-		r, err := a.B.Create(ctx, &proto.CreateRequest{Key: a.Keys.Raw(*succ + 1), Value: []byte("old")})
-		reqs++
-		if err == nil && r.Succeeded {
-			oldRev[*succ+1] = r.Header.Revision
+		if *follower {
+			// a second node of the cluster serves a read as follower: the revision syncer stores the leader's
+			// committed revision in its backend (revision.go: SetCurrentRevision)
+			standby = newNode("node-1")
+			standby.B.SetCurrentRevision(a.B.GetCurrentRevision())
 		}
-	}
+		for i := 0; i < *fails && !stop(); i++ {
+			// creating an existing key fails and consumes a revision without touching the engine
+			a.B.Create(ctx, &proto.CreateRequest{Key: a.Keys.Raw(1), Value: []byte("again")})
+			reqs++
+		}
+		if !stop() {
+			// one more success so that a high revision is actually stored
+			r, err := a.B.Create(ctx, &proto.CreateRequest{Key: a.Keys.Raw(*succ + 1), Value: []byte("old")})
+			reqs++
+			if err == nil && r.Succeeded {
+				oldRev[*succ+1] = r.Header.Revision
+			}
+		}
+		if *future && !stop() {
+			// a client names a revision far ahead of the generator (refused: "revision drift back"); what the leader writes
+			// afterwards must still be below what a later leader hands out
+			k := 1
+			a.B.Update(ctx, &proto.UpdateRequest{Kv: &proto.KeyValue{Key: a.Keys.Raw(k), Value: []byte("future"), Revision: a.B.GetCurrentRevision() + 3600*1000000000}})
+			reqs++
+			r, err := a.B.Create(ctx, &proto.CreateRequest{Key: a.Keys.Raw(*succ + 2), Value: []byte("after")})
+			reqs++
+			if err == nil && r.Succeeded {
+				oldRev[*succ+2] = r.Header.Revision
+			}
+		}
+	}()
 	var maxStored uint64
 	for _, r := range oldRev {
 		if r > maxStored {
@@ -122,43 +174,61 @@ func cmdLeadRun(args []string) int {
 	}
 	log(gate.Event{"e": "Stored", "max": rel(maxStored), "seed_old": shift, "requests": reqs, "engine": *engine})
 	// restart: a new node instance with the same identity over the same store
+	probeEarly = true
 	b, seedB, ok := startNode("node-1")
 	if !ok {
 		fmt.Println("the restarted node did not become leader in time")
 		return 2
 	}
 	log(gate.Event{"e": "LeaderStart", "seed": rel(seedB), "engine": *engine, "was_follower": *follower})
-	r, err := b.B.Create(ctx, &proto.CreateRequest{Key: b.Keys.Raw(nkeys), Value: []byte("new")})
-	if err == nil {
-		log(gate.Event{"e": "NewWrite", "rev": rel(r.Header.Revision), "ok": r.Succeeded, "guarded": false, "what": "create of a new key"})
+	if earlyDone != nil {
+		select {
+		case <-earlyDone:
+			if earlyRev > 0 {
+				log(gate.Event{"e": "NewWrite", "rev": rel(earlyRev), "ok": earlyOk, "guarded": false, "what": "a write issued the moment the node reported that it leads", "panic": earlyPanic})
+			}
+		case <-time.After(2 * time.Second):
+		}
 	}
-	for k, rv := range oldRev {
-		u, err := b.B.Update(ctx, &proto.UpdateRequest{Kv: &proto.KeyValue{Key: b.Keys.Raw(k), Value: []byte("upd"), Revision: rv}})
+	func() {
+		// a panic of the code under test while the new leader serves its first requests is an observation
+		defer func() {
+			if x := recover(); x != nil {
+				log(gate.Event{"e": "NewWrite", "rev": rel(1), "ok": false, "guarded": false, "what": "the new leader panicked: " + fmt.Sprint(x), "panic": fmt.Sprint(x)})
+			}
+		}()
+		r, err := b.B.Create(ctx, &proto.CreateRequest{Key: b.Keys.Raw(nkeys), Value: []byte("new")})
+		if err == nil {
+			log(gate.Event{"e": "NewWrite", "rev": rel(r.Header.Revision), "ok": r.Succeeded, "guarded": false, "what": "create of a new key"})
+		}
+		for k, rv := range oldRev {
+			u, err := b.B.Update(ctx, &proto.UpdateRequest{Kv: &proto.KeyValue{Key: b.Keys.Raw(k), Value: []byte("upd"), Revision: rv}})
+			if err != nil {
+				log(gate.Event{"e": "NewWrite", "rev": rel(b.B.GetCurrentRevision()), "ok": false, "guarded": true, "what": "guarded update of an old key: " + err.Error()})
+				continue
+			}
+			log(gate.Event{"e": "NewWrite", "rev": rel(u.Header.Revision), "ok": u.Succeeded, "guarded": true, "what": "guarded update of an old key"})
+			break
+		}
+		b.WaitCommitted(b.B.GetCurrentRevision()+0, time.Second)
+		time.Sleep(2 * time.Millisecond)
+		lr, err := b.B.List(ctx, &proto.RangeRequest{Key: []byte("/lead/"), End: backend.PrefixEnd([]byte("/lead/"))})
+		missing := 0
 		if err != nil {
-			log(gate.Event{"e": "NewWrite", "rev": rel(b.B.GetCurrentRevision()), "ok": false, "guarded": true, "what": "guarded update of an old key: " + err.Error()})
-			continue
-		}
-		log(gate.Event{"e": "NewWrite", "rev": rel(u.Header.Revision), "ok": u.Succeeded, "guarded": true, "what": "guarded update of an old key"})
-		break
-	}
-	b.WaitCommitted(b.B.GetCurrentRevision()+0, time.Second)
-	time.Sleep(2 * time.Millisecond)
-	lr, err := b.B.List(ctx, &proto.RangeRequest{Key: []byte("/lead/"), End: backend.PrefixEnd([]byte("/lead/"))})
-	missing := 0
-	if err != nil {
-		missing = len(oldRev)
-	} else {
-		seen := map[string]bool{}
-		for _, kv := range lr.Kvs {
-			seen[string(kv.Key)] = true
-		}
-		for k := range oldRev {
-			if !seen[string(b.Keys.Raw(k))] {
-				missing++
+			missing = len(oldRev)
+		} else {
+			seen := map[string]bool{}
+			for _, kv := range lr.Kvs {
+				seen[string(kv.Key)] = true
+			}
+			for k := range oldRev {
+				if !seen[string(b.Keys.Raw(k))] {
+					missing++
+				}
 			}
 		}
-	}
-	log(gate.Event{"e": "ListAfter", "missing": missing, "old_keys": len(oldRev)})
+		log(gate.Event{"e": "ListAfter", "missing": missing, "old_keys": len(oldRev)})
+	}()
 	w, err := os.Create(*out)
 	if err != nil {
 		fmt.Println(err)
